@@ -122,28 +122,45 @@ def op_harness(out_kind, scalar_operand):
     return h
 
 
-def inplace_harness(ctx: Ctx):
-    cfg, locks = base_cfg(ctx, False)
-    interp = Interp(ctx, cfg)
-    T = interp.global_lookup(interp.module(TB), "Tensor")
-    rec = []
-    ret = Opaque("_op result")
-    cfg.summaries[f"{TB}:Tensor._op"] = lambda interp_, a, k: (rec.append((a, k)), ret)[1]
-    data = Arr("self.data")
-    t = SObj(T, dict(_constant=False, _grad=Opaque("g"), _ops=set(), _base=None, _creator=None, data=data, _view_grad=None), label="self")
-    before = dict(t.fields)
-    opcls, x, a1, kw = Opaque("Op"), Opaque("operand"), Opaque("a"), Opaque("kw")
-    f, _ = T.lookup(interp, "_in_place_op")
-    meta = dict(function=f"{TB}:Tensor._in_place_op")
-    r = interp.call(f, [t, opcls, t, x], dict(op_args=(a1,), op_kwargs={"k": kw}, constant=None))
-    ok = len(rec) == 1
-    if ok:
-        a, k = rec[0]
-        ok = a[-3:] == [opcls, t, x] or (len(a) >= 3 and a[-3] is opcls and a[-2] is t and a[-1] is x)
-        ok = ok and k.get("op_args") == (a1,) and k.get("op_kwargs") == {"k": kw} and k.get("constant", "m") is None and k.get("out") is data
-    ctx.oblige("C15.untracked._in_place_op.writes_own_memory_via_out", ok, **meta)
-    ctx.oblige("C15.untracked._in_place_op.returns_op_result", r is ret, **meta)
-    ctx.oblige("C15.untracked._in_place_op.no_graph_surgery", t.fields == before, **meta)
+def inplace_harness_for(has_base, has_view_grad, has_grad):
+    """untracked Tensor._in_place_op: delegates to _op(..., out=self.data) and touches NOTHING else -- whatever gradient / base / cache
+    state the target is in (a view with a cached gradient window, a leaf holding a gradient, ...)"""
+
+    def inplace_harness(ctx: Ctx):
+        cfg, locks = base_cfg(ctx, False)
+        interp = Interp(ctx, cfg)
+        T = interp.global_lookup(interp.module(TB), "Tensor")
+        rec = []
+        touched = []
+        ret = Opaque("_op result")
+        cfg.summaries[f"{TB}:Tensor._op"] = lambda interp_, a, k: (rec.append((a, k)), ret)[1]
+        cfg.summaries[f"{TB}:Tensor.null_grad"] = lambda interp_, a, k: (touched.append(("null_grad", a[0])), a[0])[1]
+        cfg.summaries[f"{TB}:Tensor.clear_graph"] = lambda interp_, a, k: touched.append(("clear_graph", a[0]))
+        data = Arr("self.data")
+        base = SObj(T, dict(_constant=False, _grad=Opaque("base grad"), _ops=set(), _base=None, _creator=None, data=Arr("base.data"), _view_grad=None), label="base") if has_base else None
+        t = SObj(T, dict(_constant=False, _grad=Opaque("g") if has_grad else None, _ops=set(), _base=base, _creator=None, data=data, _view_grad=Opaque("cached window") if has_view_grad else None), label="self")
+        before = dict(t.fields)
+        before_base = dict(base.fields) if base is not None else None
+        opcls, x, a1, kw = Opaque("Op"), Opaque("operand"), Opaque("a"), Opaque("kw")
+        f, _ = T.lookup(interp, "_in_place_op")
+        tag = f"C15.untracked._in_place_op[base={has_base},view_grad={has_view_grad},grad={has_grad}]"
+        meta = dict(function=f"{TB}:Tensor._in_place_op", target_has_base=has_base, cached_view_grad=has_view_grad, holds_grad=has_grad)
+        try:
+            r = interp.call(f, [t, opcls, t, x], dict(op_args=(a1,), op_kwargs={"k": kw}, constant=None))
+        except SymRaise as e:
+            ctx.oblige(f"{tag}.no_exception", False, raised=e.exc.cls_name(), **meta)
+            return
+        ok = len(rec) == 1
+        if ok:
+            a, k = rec[0]
+            ok = a[-3:] == [opcls, t, x] or (len(a) >= 3 and a[-3] is opcls and a[-2] is t and a[-1] is x)
+            ok = ok and k.get("op_args") == (a1,) and k.get("op_kwargs") == {"k": kw} and k.get("constant", "m") is None and k.get("out") is data
+        ctx.oblige(f"{tag}.writes_own_memory_via_out", ok, **meta)
+        ctx.oblige(f"{tag}.returns_op_result", r is ret, **meta)
+        ctx.oblige(f"{tag}.no_graph_surgery", t.fields == before and all(t.fields[k_] is before[k_] for k_ in before), **meta)
+        ctx.oblige(f"{tag}.no_other_tensor_touched", not touched and (base is None or (base.fields == before_base and all(base.fields[k_] is before_base[k_] for k_ in before_base))), touched=repr(touched), **meta)
+
+    return inplace_harness
 
 
 def backward_harness(ctx: Ctx):
@@ -216,7 +233,8 @@ def obligations(tier="quick"):
     except frontend.ExtractionError as e:
         info["unsupported"].append(str(e))
     hs = [(f"_op[{o},{s}]", op_harness(o, s)) for o in ("none", "array") for s in (False, True)]
-    hs += [("_in_place_op", inplace_harness), ("backward", backward_harness), ("backward-guard", tracked_backward_reads_state), ("shape", shape_harness)]
+    hs += [(f"_in_place_op[{hb},{hv},{hg}]", inplace_harness_for(hb, hv, hg)) for hb in (False, True) for hv in (False, True) for hg in (False, True)]
+    hs += [("backward", backward_harness), ("backward-guard", tracked_backward_reads_state), ("shape", shape_harness)]
     for name, h in hs:
         results = explore(h)
         k = 0
